@@ -167,7 +167,8 @@ Definition q2R (x : q2) : R := (Q2R (fst x) + Q2R (snd x) * sqrt 2)%R.
 (* ------------------------------------------------------------------------------------ *)
 
 Definition kappaQ (l : list Q) : Q := fold_right (fun x acc => qadd (Qabs x) acc) (0#1)%Q l.
-Definition probsQ (l : list Q) : list Q := map (fun c => Qred (Qabs c / kappaQ l)) l.
+Definition probsQ (l : list Q) : list Q :=
+  let k := kappaQ l in map (fun c => Qred (Qabs c / k)) l.   (* kappa computed once *)
 Definition overheadQ (l : list Q) : Q := qmul (kappaQ l) (kappaQ l).
 Definition sumQ (l : list Q) : Q := fold_right Qplus (0#1)%Q l.
 
